@@ -666,6 +666,28 @@ theorem poa_add_alignment_source_total_on_valid_lists (g : Poa.Model.G) (aln : R
 example : RbV.Thm.GenSrcPoaAdd.SeqOK 3 3 0 [.m none, .m (some (0, 1)), .m (some (1, 2))] :=
   ⟨by decide, by decide, by decide, by decide, by decide, trivial⟩
 
+/-- **the translated `add_alignment` does not panic on traceback-produced lists** (hard, tie-independent): non-empty well-formed
+DAG, any scoring / clip penalties (= any `custom`-based mode), non-empty query, sizes below `2^64 − 1`, `customTableC ≠ none`.
+For the table `tb` the translated `custom` returns and *any* list the translated `Traceback::alignment` returns from it, the
+translated `add_alignment` **returns** `Model.addAlignment` — provided the edge weights have room for one `+ 1` per operation (the
+explicit size hypothesis).  Column tracking (`traceF_seqOK`): a consuming operation emitted in column `j` consumes `seq[j − 1]`
+because column 0 holds nothing consuming, a `Yclip(c, d)` stored in column `j` has `c ≤ j` and `d = j`, and a
+`Match(Some((_, p)))` only occurs in an existing row (`tb.matrix.length = node_count + 1`).  So
+`poa_add_alignment_source_total_on_valid_lists` applies to every step of a history; what is still open for "the step returns" is only
+that `Traceback::alignment` ends within the fuel of the translation spec (a termination argument). -/
+theorem poa_add_alignment_source_total_on_tracebacks (sc : Sc) (xp xs yp ys : Int) (g : Poa.Model.G) (q : List Nat)
+    (t : Poa.Model.BTable) (tb : Rs.Poa.Traceback) (aln : Rs.Poa.Alignment)
+    (hne : g.labels ≠ []) (hwf : ∀ e ∈ g.es, e.1 < g.labels.length ∧ e.2.1 < g.labels.length)
+    (hac : ∀ v, ¬ Reach (plain g.es) v v)
+    (hm : g.labels.length + 1 < 2 ^ 64) (hn : q.length + 1 < 2 ^ 64) (hq : 0 < q.length)
+    (hC : Poa.Model.customTableC sc xp xs yp ys g.labels g.es q = some t)
+    (hcu : RbV.Gen.SrcPoaAlign.custom sc.w g sc.gap xp xs yp ys q = Rs.Res.ok tb)
+    (hal : RbV.Gen.SrcPoaAlign.Traceback_alignment tb = Rs.Res.ok aln)
+    (hK : (aln.operations.length : Int) < 2147483647)
+    (hw : ∀ e ∈ g.es, -2147483648 ≤ e.2.2 ∧ e.2.2 + (aln.operations.length : Int) ≤ 2147483647) :
+    RbV.Gen.SrcPoaAdd.add_alignment g aln q = Rs.Res.ok (Poa.Model.addAlignment g aln.operations q) :=
+  RbV.Thm.GenSrcPoaHistory.step_add_total sc xp xs yp ys g q t tb aln ⟨hne, hwf, hac⟩ hm hn hq hC hcu hal hK hw
+
 /-- **`Traceback::get` as translated = `BRow.get` of the mirror** on every row that represents a model row (`RowRep`: same
 band, cells equal up to the `MIN_SCORE` padding `new_row` allocates), with its three out-of-band answers -/
 theorem poa_traceback_get_source_eq_model (tb : Rs.Poa.Traceback) (i j : Nat) (rr : List Poa.Model.Cell × Nat × Nat)
